@@ -245,7 +245,7 @@ def _cls(obs, case, npings):
     nt = npings >= 3 and (silent or near)
     obs.cls = (f"ratio:{'I<=2T' if T and I <= 2 * T else 'I>2T'}", f"silent:{int(silent)}", f"traffic:{min(len(tr), 4)}", f"near_ping_traffic:{int(near)}",
                f"pings:{min(npings // 5 * 5, 30)}", f"late_pongs:{int(any(l is not None and T and l >= T for l in case.get('pong', [])))}", f"tls:{int(bool(case.get('secure')))}", f"external_dispatcher:{int(bool(case.get('external')))}", f"second_run:{int(bool(case.get('rerun')))}")
-    obs.nt = repr((I, T, case.get("pong"), case.get("silent_from"), tr, case.get("choices"), sorted((case.get("preempt") or {}).items()), case.get("payload"), case.get("secure"), case.get("external"), case.get("rerun"), case.get("pong_with_data"))) if nt else None
+    obs.nt = repr((I, T, case.get("pong"), case.get("silent_from"), tr, case.get("choices"), sorted((case.get("preempt") or {}).items()), case.get("payload"), case.get("secure"), case.get("external"), case.get("rerun"), case.get("pong_with_data"), sorted((case.get("preempt_at") or {}).items()))) if nt else None
     return obs
 
 
@@ -325,7 +325,14 @@ def cases(draw):
         c["choices"] = draw(st.lists(st.integers(0, 2), max_size=30))
     if draw(st.integers(0, 3)) == 0:
         c["preempt"] = {str(draw(st.integers(1, 4000))): 1 for _ in range(draw(st.integers(1, 2)))}
+    if draw(st.integers(0, 3)) == 0:
+        # preemption at a place where the ping thread and the reading loop meet: the k-th line executed inside that function
+        c["preempt_at"] = {site: {str(draw(st.integers(1, 120))): draw(st.sampled_from([1, 2, [1, 3], [1, 12]]))}
+                           for site in draw(st.lists(st.sampled_from(RACE_SITES), min_size=1, max_size=2, unique=True))}
     return c
+
+
+RACE_SITES = ["_app.py:_send_ping", "_app.py:check", "_app.py:read", "_app.py:teardown", "_app.py:_stop_ping_thread", "_app.py:_start_ping_thread", "_app.py:setSock", "_core.py:send_frame", "_core.py:ping"]
 
 
 # fixed scenarios for single-preemption sweeps: traffic makes the reader run its liveness check at the very instant the ping thread wakes
